@@ -165,6 +165,14 @@ def classify(diags, meta):
                 if o["kind"] == "clause" and o["from"] <= s["line_start"] <= o["to"]:
                     ob_id, item_id = o["id"], o["item"]
         # 2. otherwise the body obligation of the item that contains a non-clause span
+        callee_tag = None
+        if ob_id is None and "precondition" in msg:
+            # which `requires` clause of the callee failed (secondary span labelled "failed precondition")
+            for s in spans:
+                if not s.get("is_primary"):
+                    for o in obs:
+                        if o["kind"] == "clause" and o["from"] <= s["line_start"] <= o["to"]:
+                            callee_tag = split_tag(o["id"])[0].replace("req:", "")
         if ob_id is None:
             cands = []
             for s in spans:
@@ -176,7 +184,7 @@ def classify(diags, meta):
             cands.sort()
             if cands:
                 item_id = cands[0][1]
-                ob_id = item_id + ".body"
+                ob_id = item_id + ".body" + (f"/{callee_tag}" if callee_tag else "")
         if ob_id is None:
             # failure located in prelude/spec (e.g. a lemma of spec.rs) or an uncontracted item
             for it in meta["line_map"]:
@@ -251,9 +259,11 @@ def check_unit(u, scratch, args):
                                  "rules_fired": it["rules_fired"], "contracted": it["contracted"],
                                  "verus_fn": fq, "smt_ms": ms,
                                  "verified": bool(fq) and all(bd[k]["success"] for k in fq)})
-    failed_ids = {f["obligation"] for f in failures}
+    failed_ids = {f["obligation"] for f in failures} | {f["obligation"].split("/")[0] for f in failures}
     failed_items = {f["item"] for f in failures}
     for o in meta["obligations"]:
+        if o["id"].startswith("req:"):
+            continue  # a named `requires` clause: checked at every call site (part of the callers' body obligations)
         st = "failed" if o["id"] in failed_ids else ("discharged" if o["item"] not in failed_items or True else "?")
         res["obligations"].append({"id": o["id"], "item": o["item"], "kind": o["kind"], "status": st,
                                    "back_end": "verus/z3"})
